@@ -7,9 +7,9 @@ VNAMES = "abcdefgh"
 
 LINK_CLASS_MENU = {
     "DE": "DirectedEdge", "UE": "UnDirectedEdge", "SD": "SubDE", "SU": "SubUE",
-    "TE": "OtherTE", "GL": "NLink",
+    "TE": "OtherTE", "GL": "NLink", "BI": "BiEdge",
 }
-TWO_ENDED = {"DE", "UE", "SD", "SU", "TE"}
+TWO_ENDED = {"DE", "UE", "SD", "SU", "TE", "BI"}
 
 
 def make_vertices(B, n, classes=None, uid=None):
